@@ -422,6 +422,16 @@ def source_tie(chk, cases, outs, model_ok):
     bad = [idx[j] for j, ok in enumerate(res) if not ok]
     calls = sum(sum(len(o["log"]) for o in outs[i]["obs"]) for i in idx)
     chk.extra["source_tie_run"] = {"runs": len(idx), "update_calls": calls, "disagreements": len(bad)}
+    # diagnosis only: runs the model misses - does the interpreted source reproduce them?  (yes = the source text itself
+    # changed behaviour and the translation tracks it; the correspondence reports those runs)
+    miss = [i for i, ok in enumerate(model_ok) if not ok and "error" not in outs[i]][:200]
+    if miss:
+        try:
+            mres = coq_eval_bools(chk.workdir, IMPORTS_SRC, [src_term(cases[i], outs[i]) for i in miss], shard=100, tag="srcm")
+            chk.extra["source_tie_run"]["model_misses"] = len(miss)
+            chk.extra["source_tie_run"]["model_misses_reproduced_by_source"] = sum(1 for ok in mres if ok)
+        except CoqError:
+            pass
     chk.count("source_tie_runs", len(idx))
     if bad:
         i = bad[0]
